@@ -19,23 +19,24 @@ theorem C10_merged_edges (bins : Bins) (amount : Nat) (ha : 0 < amount) (hc : Ru
         some ((binAt bins (j * amount)).1, (binAt bins (min ((j + 1) * amount) bins.length - 1)).2) :=
   ⟨mergeBinsAux_amount bins amount ha hc, mergedBins_length bins amount, fun j hj => mergedBins_getElem? bins amount j hj⟩
 
-/-- **`merge_bins(amount)` of a 1-D histogram**: accepted; new bins as above; contents and squared
+/-- **`merge_bins(amount)` of a 1-D histogram** with at least one bin (a histogram without bins is
+    refused: physt takes `max()` of an empty bin map): accepted; new bins as above; contents and squared
     errors are the run sums and keep their totals. -/
-theorem C10_merge_1d (fo : FloatOps) (h : H1) (amount : Nat) (ha : 0 < amount)
+theorem C10_merge_1d (fo : FloatOps) (h : H1) (amount : Nat) (ha : 0 < amount) (hpos : 0 < h.freq.length)
     (hlen : h.freq.length = (h.bins fo).length) (hc : RunsMeet (h.bins fo) amount) :
     ∃ r, h.mergeAmount fo amount = .ok r ∧ r.bins fo = mergedBins (h.bins fo) amount ∧
       (r.bins fo).length = (h.freq.length + amount - 1) / amount ∧
       r.freq = H1.mergeVals h.freq (H1.amountMap h.freq.length amount) ((h.freq.length + amount - 1) / amount) ∧
       r.err2 = H1.mergeVals h.err2 (H1.amountMap h.freq.length amount) ((h.freq.length + amount - 1) / amount) ∧
       r.freq.sum = h.freq.sum ∧ (h.err2.length = h.freq.length → r.err2.sum = h.err2.sum) :=
-  H1.mergeAmount_spec fo h amount ha hlen hc
+  H1.mergeAmount_spec fo h amount ha hpos hlen hc
 
 /-- **`merge_bins(amount, axis)` of an N-d histogram**: the chosen axis gets the merged bins; the
     other axes, their shape entries, the names and the missed count are unchanged; contents and
     squared errors are gathered run by run along that axis and keep their totals. -/
 theorem C10_merge_nd (fo : FloatOps) (h : HN) (axis amount : Nat) (thr : Option Rat) (bn : Binning) (ha : 0 < amount)
-    (hbn : h.axes[axis]? = some bn) (hn : h.freq.shape[axis]?.getD 0 = (bn.bins fo).length)
-    (hc : RunsMeet (bn.bins fo) amount) :
+    (hbn : h.axes[axis]? = some bn) (hpos : 0 < (bn.bins fo).length)
+    (hn : h.freq.shape[axis]?.getD 0 = (bn.bins fo).length) (hc : RunsMeet (bn.bins fo) amount) :
     ∃ r ire, h.mergeAxis fo axis (some amount) thr = .ok r ∧
       r.axes = h.axes.set axis (.static (mergedBins (bn.bins fo) amount) ire) ∧
       r.freq = h.freq.mergeAxis axis (H1.amountMap (bn.bins fo).length amount) (((bn.bins fo).length + amount - 1) / amount) ∧
@@ -44,7 +45,7 @@ theorem C10_merge_nd (fo : FloatOps) (h : HN) (axis amount : Nat) (thr : Option 
       r.missed = h.missed ∧ r.names = h.names ∧
       (h.freq.WellShaped → axis < h.freq.shape.length → r.freq.total = h.freq.total) ∧
       (h.err2.WellShaped → h.err2.shape = h.freq.shape → axis < h.freq.shape.length → r.err2.total = h.err2.total) :=
-  HN.mergeAxis_amount fo h axis amount thr bn ha hbn hn hc
+  HN.mergeAxis_amount fo h axis amount thr bn ha hbn hpos hn hc
 
 /-- any regrouping along an axis in which every old bin lands in exactly one new bin keeps the total
     (merging by amount or by min_frequency, adaptive growth) -/
